@@ -21,20 +21,47 @@ var (
 	c18BadQuery = []string{"nope", ">>1.0.0", "1.2.3.4", ">= ", "||", "1.0.0 ||", "~~1", "^", "1.2.3-", "<1.0.0 >", "latest", " ", "1.0.0 - ", "=="}
 )
 
+// c18Uniform draws an (almost) uniformly distributed integer in [0,n). rapid's own integer and SampledFrom draws are
+// deliberately biased towards small values (value 0 of a 0..99 range comes up in one draw of ten), which would make
+// the rare classes of this generator common and the common ones rare. Shrinks towards 0; the class switches below
+// therefore count downwards (N-1-draw) so that the plain alternative is the one a failing case shrinks to.
+func c18Uniform(t *rapid.T, label string, n int) int {
+	if n <= 1 {
+		return 0
+	}
+	k := 3
+	for m := n - 1; m > 0; m >>= 1 {
+		k++
+	}
+	bits := rapid.SliceOfN(rapid.Bool(), k, k).Draw(t, label)
+	v := 0
+	for _, b := range bits {
+		v <<= 1
+		if b {
+			v |= 1
+		}
+	}
+	return v % n
+}
+
+func c18Pick[E any](t *rapid.T, label string, from []E) E {
+	return from[c18Uniform(t, label, len(from))]
+}
+
 func c18GenCore(t *rapid.T, label string) string {
-	return fmt.Sprintf("%d.%d.%d", rapid.SampledFrom(c18Nums).Draw(t, label+"Maj"), rapid.SampledFrom(c18Nums).Draw(t, label+"Min"), rapid.SampledFrom(c18Nums).Draw(t, label+"Pat"))
+	return fmt.Sprintf("%d.%d.%d", c18Pick(t, label+"Maj", c18Nums), c18Pick(t, label+"Min", c18Nums), c18Pick(t, label+"Pat", c18Nums))
 }
 
 // c18GenStrict draws MAJOR.MINOR.PATCH[-pre][+build].
 func c18GenStrict(t *rapid.T, label string) string {
 	s := c18GenCore(t, label)
-	switch rapid.IntRange(0, 9).Draw(t, label+"Shape") {
+	switch 9 - c18Uniform(t, label+"Shape", 10) {
 	case 0, 1:
-		s += "-" + rapid.SampledFrom(c18Pres).Draw(t, label+"Pre")
+		s += "-" + c18Pick(t, label+"Pre", c18Pres)
 	case 2:
-		s += "+" + rapid.SampledFrom(c18Builds).Draw(t, label+"Build")
+		s += "+" + c18Pick(t, label+"Build", c18Builds)
 	case 3:
-		s += "-" + rapid.SampledFrom(c18Pres).Draw(t, label+"Pre") + "+" + rapid.SampledFrom(c18Builds).Draw(t, label+"Build")
+		s += "-" + c18Pick(t, label+"Pre", c18Pres) + "+" + c18Pick(t, label+"Build", c18Builds)
 	}
 	return s
 }
@@ -47,16 +74,16 @@ func c18Vary(t *rapid.T, label, s string) string {
 		return s
 	}
 	core := fmt.Sprintf("%d.%d.%d", v.Major(), v.Minor(), v.Patch())
-	switch rapid.IntRange(0, 6).Draw(t, label+"Vary") {
+	switch 6 - c18Uniform(t, label+"Vary", 7) {
 	case 0:
 		return s // duplicate
 	case 1:
-		return core + "+" + rapid.SampledFrom(c18Builds).Draw(t, label+"Build")
+		return core + "+" + c18Pick(t, label+"Build", c18Builds)
 	case 2:
-		return core + "-" + rapid.SampledFrom(c18Pres).Draw(t, label+"Pre")
+		return core + "-" + c18Pick(t, label+"Pre", c18Pres)
 	case 3:
 		if v.Prerelease() != "" {
-			return core + "-" + v.Prerelease() + "+" + rapid.SampledFrom(c18Builds).Draw(t, label+"Build")
+			return core + "-" + v.Prerelease() + "+" + c18Pick(t, label+"Build", c18Builds)
 		}
 		return core
 	case 4:
@@ -72,14 +99,14 @@ func c18Vary(t *rapid.T, label, s string) string {
 
 // c18GenVersion draws a version string for an index entry; prev are the strings already used in the same list.
 func c18GenVersion(t *rapid.T, label string, prev []string) string {
-	k := rapid.IntRange(0, 19).Draw(t, label+"Class")
+	k := 19 - c18Uniform(t, label+"Class", 20)
 	switch {
 	case k < 5 && len(prev) > 0:
-		return c18Vary(t, label, rapid.SampledFrom(prev).Draw(t, label+"Prev"))
+		return c18Vary(t, label, c18Pick(t, label+"Prev", prev))
 	case k == 5 || k == 6:
-		return rapid.SampledFrom(c18Invalid).Draw(t, label+"Invalid")
+		return c18Pick(t, label+"Invalid", c18Invalid)
 	case k == 7:
-		return rapid.SampledFrom(c18Loose).Draw(t, label+"Loose")
+		return c18Pick(t, label+"Loose", c18Loose)
 	case k == 8:
 		return "v" + c18GenStrict(t, label)
 	}
@@ -90,12 +117,12 @@ func c18Str(s string) *string { return &s }
 
 // c18GenEntry draws one list item. nullPct is the percentage of null items.
 func c18GenEntry(t *rapid.T, label, key string, prev []string, nullPct int) c18Entry {
-	r := rapid.IntRange(0, 99).Draw(t, label+"Kind")
+	r := 99 - c18Uniform(t, label+"Kind", 100)
 	if r < nullPct {
 		return c18Entry{Kind: "null"}
 	}
 	e := c18Entry{Kind: "entry", Name: c18Str(key), URLs: "relative"}
-	switch u := rapid.IntRange(0, 19).Draw(t, label+"URLs"); {
+	switch u := 19 - c18Uniform(t, label+"URLs", 20); {
 	case u == 0:
 		e.URLs = "omitted"
 	case u == 1:
@@ -105,8 +132,8 @@ func c18GenEntry(t *rapid.T, label, key string, prev []string, nullPct int) c18E
 	case u <= 5:
 		e.URLs = "absolute"
 	}
-	e.APIVersion = rapid.SampledFrom([]string{"", "", "v1", "v2"}).Draw(t, label+"API")
-	switch m := rapid.IntRange(0, 39).Draw(t, label+"Malform"); m {
+	e.APIVersion = c18Pick(t, label+"API", []string{"", "", "v1", "v2"})
+	switch m := 39 - c18Uniform(t, label+"Malform", 40); m {
 	case 0:
 		return c18Entry{Kind: "empty"}
 	case 1: // no metadata at all
@@ -124,7 +151,7 @@ func c18GenEntry(t *rapid.T, label, key string, prev []string, nullPct int) c18E
 	case 6:
 		e.Type = "plugin"
 	case 7:
-		e.Type = rapid.SampledFrom([]string{"application", "library"}).Draw(t, label+"Type")
+		e.Type = c18Pick(t, label+"Type", []string{"application", "library"})
 	case 8:
 		e.Name = c18Str("other") // a name that differs from the map key is still a valid entry
 	}
@@ -136,21 +163,21 @@ var c18Keys = []string{"foo", "bar", "baz"}
 
 // c18GenIndex draws an index with 1..maxCharts charts of 0..maxEntries items each.
 func c18GenIndex(t *rapid.T, maxCharts, maxEntries, nullPct int) *c18Index {
-	ix := &c18Index{Format: rapid.SampledFrom([]string{"yaml", "json"}).Draw(t, "format")}
+	ix := &c18Index{Format: c18Pick(t, "format", []string{"yaml", "json"})}
 	nc := rapid.IntRange(1, maxCharts).Draw(t, "ncharts")
 	for ci := 0; ci < nc; ci++ {
 		ch := c18Chart{Key: c18Keys[ci]}
-		if rapid.IntRange(0, 59).Draw(t, "listNull") == 0 {
+		if 59 - c18Uniform(t, "listNull", 60) == 0 {
 			ch.ListNull = true
 			ix.Charts = append(ix.Charts, ch)
 			continue
 		}
 		// the null percentage is per case: most cases have no null item at all, a few have several
 		np := 0
-		if nullPct > 0 && rapid.IntRange(0, 99).Draw(t, "nullCase") < nullPct {
+		if nullPct > 0 && 99 - c18Uniform(t, "nullCase", 100) < nullPct {
 			np = 25
 		}
-		n := rapid.IntRange(0, maxEntries).Draw(t, "nentries")
+		n := c18Uniform(t, "nentries", maxEntries+1)
 		var prev []string
 		ch.Entries = []c18Entry{}
 		for ei := 0; ei < n; ei++ {
@@ -169,10 +196,10 @@ func c18GenIndex(t *rapid.T, maxCharts, maxEntries, nullPct int) *c18Index {
 // holds version strings of the data so that comparator bounds fall on and between real versions.
 func c18GenCVer(t *rapid.T, label string, near []string) string {
 	base := ""
-	if len(near) > 0 && rapid.IntRange(0, 2).Draw(t, label+"Near") > 0 {
-		if v, err := semver.NewVersion(rapid.SampledFrom(near).Draw(t, label+"NearV")); err == nil {
+	if len(near) > 0 && c18Uniform(t, label+"Near", 3) > 0 {
+		if v, err := semver.NewVersion(c18Pick(t, label+"NearV", near)); err == nil {
 			base = fmt.Sprintf("%d.%d.%d", v.Major(), v.Minor(), v.Patch())
-			if v.Prerelease() != "" && rapid.Bool().Draw(t, label+"KeepPre") {
+			if v.Prerelease() != "" && c18Uniform(t, label+"KeepPre", 2) == 1 {
 				base += "-" + v.Prerelease()
 			}
 		}
@@ -182,7 +209,7 @@ func c18GenCVer(t *rapid.T, label string, near []string) string {
 	}
 	parts := strings.SplitN(base, "-", 2)
 	nums := strings.Split(parts[0], ".")
-	switch rapid.IntRange(0, 11).Draw(t, label+"CShape") {
+	switch 11 - c18Uniform(t, label+"CShape", 12) {
 	case 0:
 		return nums[0]
 	case 1:
@@ -190,60 +217,78 @@ func c18GenCVer(t *rapid.T, label string, near []string) string {
 	case 2:
 		return nums[0] + ".x"
 	case 3:
-		return nums[0] + "." + nums[1] + "." + rapid.SampledFrom([]string{"x", "X", "*"}).Draw(t, label+"Wild")
+		return nums[0] + "." + nums[1] + "." + c18Pick(t, label+"Wild", []string{"x", "X", "*"})
 	case 4:
 		return "*"
 	case 5:
 		return parts[0] + "-0"
 	case 6:
-		return parts[0] + "-" + rapid.SampledFrom(c18Pres).Draw(t, label+"CPre")
+		return parts[0] + "-" + c18Pick(t, label+"CPre", c18Pres)
 	case 7:
 		return "v" + base
 	case 8:
-		return parts[0] + "+" + rapid.SampledFrom(c18Builds).Draw(t, label+"CBuild")
+		return parts[0] + "+" + c18Pick(t, label+"CBuild", c18Builds)
 	}
 	return base
 }
 
 func c18GenComparator(t *rapid.T, label string, near []string) string {
-	op := rapid.SampledFrom(c18Ops).Draw(t, label+"Op")
-	sp := rapid.SampledFrom([]string{"", "", " "}).Draw(t, label+"Sp")
+	op := c18Pick(t, label+"Op", c18Ops)
+	sp := c18Pick(t, label+"Sp", []string{"", "", " "})
 	return op + sp + c18GenCVer(t, label, near)
 }
 
 // c18GenConstraint draws a constraint expression: AND groups joined by "||", or a hyphen range.
 func c18GenConstraint(t *rapid.T, label string, near []string) string {
-	if rapid.IntRange(0, 11).Draw(t, label+"Hyphen") == 0 {
+	if 11 - c18Uniform(t, label+"Hyphen", 12) == 0 {
 		return c18GenCVer(t, label+"Lo", near) + " - " + c18GenCVer(t, label+"Hi", near)
 	}
-	nor := rapid.SampledFrom([]int{1, 1, 1, 2}).Draw(t, label+"NOr")
+	nor := c18Pick(t, label+"NOr", []int{1, 1, 1, 2})
 	var ors []string
 	for i := 0; i < nor; i++ {
-		nand := rapid.SampledFrom([]int{1, 1, 2}).Draw(t, label+"NAnd")
+		nand := c18Pick(t, label+"NAnd", []int{1, 1, 2})
 		var ands []string
 		for j := 0; j < nand; j++ {
 			ands = append(ands, c18GenComparator(t, fmt.Sprintf("%so%da%d", label, i, j), near))
 		}
-		ors = append(ors, strings.Join(ands, rapid.SampledFrom([]string{" ", ", ", ","}).Draw(t, label+"AndSep")))
+		ors = append(ors, strings.Join(ands, c18Pick(t, label+"AndSep", []string{" ", ", ", ","})))
 	}
-	return strings.Join(ors, rapid.SampledFrom([]string{" || ", "||"}).Draw(t, label+"OrSep"))
+	return strings.Join(ors, c18Pick(t, label+"OrSep", []string{" || ", "||"}))
 }
 
 // c18GenQueryString draws the version argument of a query. all = every version string written in the data
 // (valid or not), so that identical-string queries and queries for dropped entries are frequent.
 func c18GenQueryString(t *rapid.T, label string, all []string) string {
-	k := rapid.IntRange(0, 19).Draw(t, label+"QClass")
+	k := 19 - c18Uniform(t, label+"QClass", 20)
 	switch {
 	case k < 3:
 		return ""
 	case k < 7 && len(all) > 0:
-		return rapid.SampledFrom(all).Draw(t, label+"QExact")
+		return c18Pick(t, label+"QExact", all)
 	case k < 9 && len(all) > 0:
-		return c18Vary(t, label+"QNear", rapid.SampledFrom(all).Draw(t, label+"QNearOf"))
+		return c18Vary(t, label+"QNear", c18Pick(t, label+"QNearOf", all))
 	case k == 9:
-		return rapid.SampledFrom(c18BadQuery).Draw(t, label+"QBad")
+		return c18Pick(t, label+"QBad", c18BadQuery)
 	}
 	return c18GenConstraint(t, label, all)
+}
+
+// c18GenSteered draws up to three candidate queries and keeps the first one that useful(q) accepts; in one case of
+// six the first candidate is kept whatever it is. Used to keep the share of satisfiable queries high: a query nothing
+// satisfies only exercises the error path.
+func c18GenSteered(t *rapid.T, label string, all []string, useful func(q string) bool) string {
+	keepFirst := c18Uniform(t, label+"KeepFirst", 6) == 5
+	q := c18GenQueryString(t, label, all)
+	if keepFirst || useful(q) {
+		return q
+	}
+	for i := 1; i < 3; i++ {
+		q2 := c18GenQueryString(t, fmt.Sprintf("%sTry%d", label, i), all)
+		if useful(q2) {
+			return q2
+		}
+	}
+	return q
 }
 
 func c18AllVersionStrings(ix *c18Index, key string) []string {
@@ -264,12 +309,12 @@ func c18AllVersionStrings(ix *c18Index, key string) []string {
 // c18GenTags draws a tag list the way registry.Client.Tags hands it over: strict semantic versions, newest first
 // (order among equal precedence drawn), optionally with a few non-version tags at drawn positions.
 func c18GenTags(t *rapid.T) []string {
-	n := rapid.IntRange(0, 8).Draw(t, "ntags")
+	n := c18Uniform(t, "ntags", 9)
 	var tags []string
 	for i := 0; i < n; i++ {
 		label := fmt.Sprintf("t%d", i)
-		if len(tags) > 0 && rapid.IntRange(0, 3).Draw(t, label+"FromPrev") == 0 {
-			s := c18Vary(t, label, rapid.SampledFrom(tags).Draw(t, label+"Prev"))
+		if len(tags) > 0 && 3 - c18Uniform(t, label+"FromPrev", 4) == 0 {
+			s := c18Vary(t, label, c18Pick(t, label+"Prev", tags))
 			if _, err := semver.StrictNewVersion(s); err == nil {
 				tags = append(tags, s)
 				continue
@@ -284,10 +329,10 @@ func c18GenTags(t *rapid.T) []string {
 		b, _ := semver.NewVersion(perm[j])
 		return a.Compare(b) > 0
 	})
-	if rapid.IntRange(0, 9).Draw(t, "junkTags") == 0 {
+	if 9 - c18Uniform(t, "junkTags", 10) == 0 {
 		nj := rapid.IntRange(1, 2).Draw(t, "njunk")
 		for i := 0; i < nj; i++ {
-			junk := rapid.SampledFrom([]string{"latest", "stable", "nightly", "sha256-abc.sig"}).Draw(t, "junk")
+			junk := c18Pick(t, "junk", []string{"latest", "stable", "nightly", "sha256-abc.sig"})
 			pos := rapid.IntRange(0, len(perm)).Draw(t, "junkPos")
 			perm = append(perm[:pos], append([]string{junk}, perm[pos:]...)...)
 		}
